@@ -149,8 +149,27 @@ def cases(tier, seed):
                                         "opkind": opkind, "n": n, "neig": 2, "mode": mode, "spectrum": "near",
                                         "param": "P1", "dtype": d, "order": order, "batch": "-", "plane": 0,
                                         "degtol": 1})
-    # ---- batch
-    for n in ([3] if not thorough else [3, 5]):
+    # ---- operators that are diagonal / have a decoupled state (exactly singular shifted systems in the backward)
+    for n in ((3, 5) if not thorough else (2, 3, 5, 6)):
+        for basis in ("eye", "dec0", "decn"):
+            if basis != "eye" and n < 3:
+                continue
+            for spec in ("sep", "deg2"):
+                lam = spectrum(spec, n)
+                for mode in ("lowest", "uppest"):
+                    for neig in boundary_neigs(lam, mode, 0.0):
+                        for (m, b, d) in grid:
+                            if b not in ("na", "exactsolve", "default"):
+                                continue
+                            for opkind in ("dense", "mfree"):
+                                if not _combo_ok(thorough, m, b, opkind, n):
+                                    continue
+                                for param in ("P1", "P2"):
+                                    for order in (1, 2):
+                                        out.append({"fam": "symeig", "method": m, "bck": b, "M": 0, "opkind": opkind,
+                                                    "n": n, "neig": neig, "mode": mode, "spectrum": spec,
+                                                    "param": param, "dtype": d, "order": order, "batch": "-",
+                                                    "plane": 0, "basis": basis})
         for batch in ("2|", "|2"):
             for spec in ("sep", "deg2", "mix2"):
                 if spec == "mix2" and batch != "2|":
@@ -338,6 +357,22 @@ def run_symeig(cfg):
 
     # ---- numeric instance
     Q0 = orth(n, dt, g, bA)
+    basis = cfg.get("basis", "rot")
+    if basis != "rot":
+        # operators in (part of) their own eigenbasis: A - e_i I then has an exactly zero pivot, the retry branch
+        # of the shifted solve of the implicit backward is executed
+        Qb = torch.zeros(bA + (n, n), dtype=dt)
+        if basis == "eye":
+            Qb = Qb + torch.eye(n, dtype=dt)
+        elif basis == "dec0":      # the lowest state decoupled from the rest
+            Qb[..., 0, 0] = 1.0
+            Qb[..., 1:, 1:] = orth(n - 1, dt, g, bA)
+        elif basis == "decn":      # the uppermost state decoupled
+            Qb[..., n - 1, n - 1] = 1.0
+            Qb[..., :n - 1, :n - 1] = orth(n - 1, dt, g, bA)
+        else:
+            raise AssertionError(basis)
+        Q0 = Qb
     if useM:
         Mbase = sym(spd(n, 3.0, dt, g))
         cs = torch.tensor([0.8, 1.3], dtype=torch.float64) if bM else torch.tensor(1.0, dtype=torch.float64)
